@@ -31,7 +31,7 @@ fn main() {
         let (violated, text) = match v["property"].as_str().unwrap_or("") {
             "C03" => c03::replay(&v),
             "C06" => c06::replay(&v),
-            "C01" => generic::c01_replay(subject.as_ref(), &v),
+            "C01" | "C14" => generic::c01_replay(subject.as_ref(), &v),
             "C04" => generic::c04_replay(subject.as_ref(), &v),
             "C05" => generic::c05_replay(subject.as_ref(), &v),
             "C08" => generic::c08_replay(subject.as_ref(), &v),
@@ -105,7 +105,7 @@ fn main() {
             let mut groups = Vec::new();
             for kind in FORMATS {
                 let subs = subjects::subjects();
-                let inp = gen::inputs(tier);
+                let inp = gen::inputs_seq(tier, tier.pick(3, 4));
                 sample_docs(&mut report, kind, &inp.sequences);
                 let mut docs = inp.all();
                 docs.extend(c06::c05_docs());
@@ -147,12 +147,39 @@ fn main() {
             "every well-formed corpus document x streaming subject, delivered by a source that hands out at most the rest of the current line per read (choice: any shorter amount; deviation bounded) x chunk sizes; at the moment each item is returned the source must not have been asked beyond the line that completes the item (completing line = line containing the end of the shortest prefix on which the parser, given end of input, returns the same item)".into()
         }
         "C03" => {
-            c03::run(tier, &mut report, &gen::inputs(tier).all());
+            c03::run(tier, &mut report, &gen::inputs_seq(tier, tier.pick(3, 4)).all());
             c03::RULE.into()
         }
         "C06" => {
             c06::run(tier, &mut report);
             c06::RULE.into()
+        }
+        "C14" => {
+            // the BTOR2 keyword scanner's raw 8-byte loads: every keyword at every alignment, every
+            // single cut of the input into two reads and every grain x chunk size; a load that looks
+            // at bytes which are not buffered yet shows up as a result that depends on the schedule
+            let mut docs = Vec::new();
+            let mut kws: Vec<String> = gen::UNARY.iter().chain(gen::BINARY.iter()).chain(gen::TERNARY.iter()).map(|s| s.to_string()).collect();
+            kws.extend(["sort", "init", "next", "bad", "constraint", "fair", "output", "justice", "const", "constd", "consth", "ones", "one", "zero", "input", "state", "uext", "sext", "slice"].iter().map(|s| s.to_string()));
+            for kw in &kws {
+                for shift in [0usize, 3, 7, 8, 9, 15] {
+                    let mut d = Vec::new();
+                    if shift > 0 {
+                        d.push(b';');
+                        d.extend(std::iter::repeat(b'x').take(shift - 1));
+                        d.push(b'\n');
+                    }
+                    d.extend_from_slice(format!("7 {kw} 2 3 4 5 6\n8 {kw}x 1\n").as_bytes());
+                    docs.push(generic::Doc::new(format!("kw:{kw}@{shift}"), d));
+                }
+            }
+            docs.extend(gen::corpus());
+            let docs = generic::dedup_docs(docs);
+            let params = C01Params { all_len: 0, dev_bound: 1, dev_interrupts: 0, dev2_max_len: 0, uni: (1..=17).collect(), chunks: vec![Some(1), Some(3), Some(8), Some(9), Some(16), None] };
+            generic::c01_as("C14", &subjects::subjects(), &docs, &params, &budget, &mut report);
+            report.traces = report.evaluations;
+            report.completed.push(format!("{} documents (every keyword at 6 alignments, plus the corpus) x every single cut + uniform grains 1..17 x chunk sizes", docs.len()));
+            "BTOR2 keyword scanner (raw 8-byte loads guarded by buf_len() >= offset + 8): every keyword x alignment x every two-read schedule x uniform grains x chunk sizes, result compared with the one-shot run; a load of not-yet-buffered bytes makes the result depend on the schedule".into()
         }
         "C10" => {
             generic::c10_streams(&c10_cases(), tier, &mut report);
@@ -169,7 +196,9 @@ fn main() {
 }
 
 fn c10_cases() -> Vec<(Box<dyn Subject>, generic::StreamCase)> {
-    vec![(
+    vec![
+        (Box::new(subjects::Btor2) as Box<dyn Subject>, generic::StreamCase { label: "btor2-comment-run".into(), prefix: vec![], period: b"; a comment line\n\n  \n".to_vec(), suffix: b"1 sort bitvec 1\n".to_vec(), max_item: 20 }),
+        (
         Box::new(subjects::Btor2) as Box<dyn Subject>,
         generic::StreamCase { label: "btor2".into(), prefix: b"1 sort bitvec 8\n".to_vec(), period: b"2 input 1 name ; comment\n3 add 1 2 2\n; a comment line\n4 constd 1 123\n5 justice 3 2 3 4\n".to_vec(), suffix: vec![], max_item: 26 },
     )]
